@@ -4,6 +4,7 @@ import CattrsModel.GenHook.NestedInert
 import CattrsModel.GenHook.TaggedCompose
 import CattrsModel.GenHook.TDLemmas2
 import CattrsModel.Props.C13
+import CattrsModel.GenHook.TaggedKinds
 /-!
 # C10 — `forbid_extra_keys` rejects exactly the unknown keys; without it extras are inert
 
@@ -323,5 +324,86 @@ example : tagHookSt (C10Ex.tagU (some 0)) (memberHook C10Ex.idSt10 C10Ex.tagCls 
 example : tagHookSt (C10Ex.tagU (some 0)) (memberHook C10Ex.idSt10 C10Ex.tagCls true) (.dict [(.str "k", .int 1)])
     = .ok (.inst 0 [("a", .int 1), ("b", .int 2)]) := by rfl
 end TagExamples
+
+/-! ## tagged unions whose members are TypedDicts / NamedTuples-from-dict (round 3)
+
+`memberHookK` (GenHook/TaggedKinds.lean) is `converter.get_structure_hook(member)` by kind: the TypedDict generator for
+TypedDict members, the class template for attrs classes, dataclasses and NamedTuples registered through
+`namedtuple_dict_structure_factory`.  Every kind performs its own unknown-key check, so the strategy must hand every kind
+the payload without the tag. -/
+
+/-- **Any payload carrying a member's tag reaches that member's hook without the tag key — whatever kind the member
+is.** -/
+theorem C10_tag_reaches_member_kinds (U : Tagged.TU) (st : StFn) (cls : Nat → GCls)
+    (hf : U.forbid = true) (hinj : Tagged.InjectiveOn U.tag U.members)
+    (pkvs : List (Obj × Obj)) (t : Obj) (c : Nat) (hc : c ∈ U.members)
+    (ht : dlookup pkvs U.key = some t) (hh : Tagged.tagHashable t = true) (heq : Obj.pyEq (U.tag c) t = true) :
+    tagHookSt U (memberHookK st cls true) (.dict pkvs) = memberHookK st cls true c (.dict (dictDel pkvs U.key)) :=
+  tagHookSt_reaches U _ hf hinj pkvs t c hc ht hh heq
+
+/-- **The tag is not an extra, for members of every kind**: the member's dict plus the tag is accepted iff the member's
+own forbidding hook accepts the member's dict, with the same result or the same error. -/
+theorem C10_tag_not_extra_kinds (U : Tagged.TU) (st : StFn) (cls : Nat → GCls)
+    (hf : U.forbid = true) (hinj : Tagged.InjectiveOn U.tag U.members) (hcfg : Tagged.configureOk U = true)
+    (kvs : List (Obj × Obj)) (c : Nat) (hc : c ∈ U.members) (hfresh : dlookup kvs U.key = none) :
+    tagHookSt U (memberHookK st cls true) (.dict (dictSet kvs U.key (U.tag c))) = memberHookK st cls true c (.dict kvs) := by
+  rw [Tagged.dictSet_fresh' hfresh]
+  rw [C10_tag_reaches_member_kinds U st cls hf hinj _ (U.tag c) c hc (Tagged.dlookup_append_fresh hfresh _)
+    (Tagged.configureOk_hashable hcfg hc) (Obj.pyEq_refl _), Tagged.dictDel_append_fresh hfresh]
+
+/-- **TypedDict member: anything else is an extra, and only that is reported.**  A payload carrying the tag of a
+TypedDict member `c` whose remaining entries are valid for `c` (they structure with the option off) but contain keys
+outside `c`'s accepted keys is rejected with a `ForbiddenExtraKeysError` naming `c` and exactly those keys; the tag key
+is never among them. -/
+theorem C10_tag_extras_reported_td (U : Tagged.TU) (st : StFn) (cls : Nat → GCls)
+    (hf : U.forbid = true) (hinj : Tagged.InjectiveOn U.tag U.members)
+    (pkvs : List (Obj × Obj)) (t : Obj) (c : Nat) (y : Obj) (hc : c ∈ U.members) (hk : (cls c).kind = .typeddict)
+    (ht : dlookup pkvs U.key = some t) (hh : Tagged.tagHashable t = true) (heq : Obj.pyEq (U.tag c) t = true)
+    (hnd : nodupPy (keysOf pkvs) = true)
+    (hvalid : hstTDWith false st c (cls c) (.dict (dictDel pkvs U.key)) = .ok y)
+    (hex : extraKeys (tdAllowed (cls c).hc (cls c).attrs) (dictDel pkvs U.key) ≠ []) :
+    tagHookSt U (memberHookK st cls true) (.dict pkvs)
+        = .error (forbidReport (cls c).hc.detailed c (extraKeys (tdAllowed (cls c).hc (cls c).attrs) (dictDel pkvs U.key)))
+    ∧ U.key ∉ extraKeys (tdAllowed (cls c).hc (cls c).attrs) (dictDel pkvs U.key) := by
+  refine ⟨?_, ?_⟩
+  · rw [C10_tag_reaches_member_kinds U st cls hf hinj pkvs t c hc ht hh heq, memberHookK_td st cls true c _ hk]
+    exact C10_td_forbid_reports st c (cls c) _ y hvalid hex
+  · intro hmem
+    have hk' : U.key ∈ keysOf (dictDel pkvs U.key) := by
+      simp only [extraKeys, List.mem_filter] at hmem; exact hmem.1
+    have hnone : dlookup (dictDel pkvs U.key) U.key = none := dlookup_dictDel_same hnd U.tagName
+    rw [dlookup_none_iff, memPy_of_mem hk'] at hnone
+    cases hnone
+
+/-- **Accepted iff no extras, TypedDict member.**  With the tag of a TypedDict member and remaining entries that are valid
+for it, the forbidding converter accepts the payload iff the remaining entries hold no key outside the accepted keys. -/
+theorem C10_tag_td_ok_iff (U : Tagged.TU) (st : StFn) (cls : Nat → GCls)
+    (hf : U.forbid = true) (hinj : Tagged.InjectiveOn U.tag U.members)
+    (pkvs : List (Obj × Obj)) (t : Obj) (c : Nat) (y : Obj) (hc : c ∈ U.members) (hk : (cls c).kind = .typeddict)
+    (ht : dlookup pkvs U.key = some t) (hh : Tagged.tagHashable t = true) (heq : Obj.pyEq (U.tag c) t = true) :
+    tagHookSt U (memberHookK st cls true) (.dict pkvs) = .ok y ↔
+      (hstTDWith false st c (cls c) (.dict (dictDel pkvs U.key)) = .ok y
+        ∧ extraKeys (tdAllowed (cls c).hc (cls c).attrs) (dictDel pkvs U.key) = []) := by
+  rw [C10_tag_reaches_member_kinds U st cls hf hinj pkvs t c hc ht hh heq, memberHookK_td st cls true c _ hk]
+  exact C10_td_forbid_ok_iff st c (cls c) _ y
+
+/-- **Default member of any kind.** -/
+theorem C10_tag_default_member_kinds (U : Tagged.TU) (st : StFn) (cls : Nat → GCls) (d : Nat)
+    (hf : U.forbid = true) (hd : U.default = some d) (pkvs : List (Obj × Obj))
+    (hmiss : ∀ t, dlookup pkvs U.key = some t →
+      Tagged.tagHashable t = true ∧ Tagged.lastMember U.tag t U.members = none) :
+    tagHookSt U (memberHookK st cls true) (.dict pkvs) = memberHookK st cls true d (.dict (dictDel pkvs U.key)) :=
+  tagHookSt_default U _ d hf hd pkvs hmiss
+
+/-- **Negative witness (what the seeded regression does)**: a strategy that strips the tag only for attrs classes /
+dataclasses hands a TypedDict member the payload WITH the tag; the member's forbidding hook then reports the tag as an
+extra key although the payload is the member's own dict plus the tag. -/
+theorem C10_tag_kept_for_td_witness :
+    hstTDWith true C10Ex.idSt10 0 (C10Ex.exTD10 true) (.dict [(.str "a", .int 1), (.str "_type", .str "T")])
+      = .error (.cve [(none, .extra 0 [.str "_type"])])
+    ∧ tagHookSt { members := [0], tag := fun _ => .str "T", tagName := "_type", default := none, forbid := true }
+        (memberHookK C10Ex.idSt10 (fun _ => C10Ex.exTD10 true) true) (.dict [(.str "a", .int 1), (.str "_type", .str "T")])
+      = .ok (.dict [(.str "a", .int 1)]) := by
+  constructor <;> rfl
 
 end CattrsModel
